@@ -1,6 +1,6 @@
 """C01 - Declarative queries return what Python evaluation of the same expression returns."""
 import json
-import vlib, c01_lib as L, c01_harness as H
+import vlib, c01_lib as L, c01_harness as H, c01_join as J
 from vlib import Corr, Search, Failure
 
 ID = 'C01'
@@ -25,10 +25,13 @@ ASSUMPTIONS = [
     'tested like Python (None, 0, \'\', False are false; `not None` is True); a filter keeps a row iff the condition is TRUE',
     'integers are unbounded (no 64-bit overflow), strings are code point lists compared by code point (binary collation), no floats',
     'division or modulo by zero is outside the statement (Python raises)',
+    'attribute paths through to-one relationships (p.group.number, p.group.dept.name; schema P -> G -> D with Optional references): primary keys unique; the '
+    'reference follows references over the object graph with None propagation (strict Python raises AttributeError on None.attr unless short-circuited); the primary key '
+    'column of a joined table and the foreign key column it is joined on are identified by the harness (the translator uses either, pk-only joins)',
     'and / or results are read as truth values (Python returns an operand; Pony a boolean): a selected `a and b` over non-boolean operands is outside the fragment',
     'startswith / endswith / `in` / `not in` on strings have their own model, theorem (C01_like: any string needle - literal, parameter, attribute, expression - '
     'and haystack, non-NULL) and ties (Model/C01Like.v); outside the theorems, covered by the differential search only: upper / lower, between, comparison of '
-    'conditions, NULL operands of the LIKE family; slices: C25; not covered at all here: joins, attribute paths through relationships, subqueries, aggregates, GROUP BY, ordering, dates, Decimal, float, JSON, '
+    'conditions, NULL operands of the LIKE family; slices: C25; not covered at all here: several `for` clauses, to-many collections, subqueries, aggregates, GROUP BY, ordering, dates, Decimal, float, JSON, '
     'arrays, hybrid methods, lambdas / generators (decompiler: C03), row decoding of entities',
 ]
 RULE = ('structural: all 1330 depth<=2 expressions over a 14-leaf alphabet (sampled in the quick tier) + sampled depth-3 combinations + seeded random typed '
@@ -36,8 +39,8 @@ RULE = ('structural: all 1330 depth<=2 expressions over a 14-leaf alphabet (samp
         'table (None / negative / zero / positive, empty / non-empty); non-trivial = an expression with at least one operator whose translation was compared; '
         'distinct = distinct (provider, mode, query text)')
 
-QUICK = dict(like_random=60, n_random=240, n_enum=300, n_depth3=60, sem_random=90, sem_enum=110, sem_depth3=30, rows=6, search_random=260, search_ext=160)
-THOROUGH = dict(like_random=600, n_random=2500, n_enum=1330, n_depth3=500, sem_random=600, sem_enum=700, sem_depth3=200, rows=14, search_random=4000, search_ext=3000)
+QUICK = dict(join_queries=40, join_search=150, like_random=60, n_random=240, n_enum=300, n_depth3=60, sem_random=90, sem_enum=110, sem_depth3=30, rows=6, search_random=260, search_ext=160)
+THOROUGH = dict(join_queries=500, join_search=3000, like_random=600, n_random=2500, n_enum=1330, n_depth3=500, sem_random=600, sem_enum=700, sem_depth3=200, rows=14, search_random=4000, search_ext=3000)
 
 
 def sizes(ctx, deep=False):
@@ -93,6 +96,18 @@ def correspondence(ctx):
         disagreements.append({'what': 'model and implementation differ (%s): %s' % (m['mode'], m.get('query')), 'input': {k: v for k, v in m.items() if k not in ('impl',)},
                               'impl': m.get('impl', m.get('impl_kept')), 'coq_case': k_exprs[i][:1500]})
 
+    # (5) attribute paths through to-one relationships: FROM / conditions / columns on four providers, result lists on real SQLite
+    graph = J.standard_graph()
+    jreal = J.RealGraph(graph)
+    j_exprs, j_meta, j_dis, j_nontriv, j_dist = J.join_cases(ctx, J.gen_queries(ctx, z.get('join_queries', 40)), jreal)
+    disagreements += j_dis
+    dist['join'] = j_dist
+    j_bad = H.run_bools(ctx, j_exprs, name='join', header=J.JOIN_HEADER, prelude='Definition DB := %s.\n' % J.coq_db(graph))
+    for i in j_bad[:10]:
+        m = j_meta[i]
+        disagreements.append({'what': 'model and implementation differ (%s): %s' % (m['mode'], m['query']), 'input': {k: v for k, v in m.items() if k != 'impl'},
+                              'impl': m['impl'], 'coq_case': j_exprs[i][:1500]})
+
     exprs = s_exprs + m_exprs + r_exprs
     meta = s_meta + m_meta + r_meta
     bad = H.run_bools(ctx, exprs, prelude=real.prelude())
@@ -104,8 +119,8 @@ def correspondence(ctx):
     if s_meta: samples.append({'structural': s_meta[len(s_meta) // 2]})
     if m_meta: samples.append({'semantic': m_meta[len(m_meta) // 2]})
     samples.append({'coq_case': exprs[len(exprs) // 3][:600]})
-    dist['cases'] = {'structural': len(s_exprs), 'semantic': len(m_exprs), 'reference': len(r_exprs), 'like': len(k_exprs)}
-    return Corr(cases=len(exprs) + len(k_exprs), nontrivial=len(s_nontriv) + len(m_nontriv) + len(k_nontriv), disagreements=disagreements, samples=samples, distribution=dist,
+    dist['cases'] = {'structural': len(s_exprs), 'semantic': len(m_exprs), 'reference': len(r_exprs), 'like': len(k_exprs), 'join': len(j_exprs)}
+    return Corr(cases=len(exprs) + len(k_exprs) + len(j_exprs), nontrivial=len(s_nontriv) + len(m_nontriv) + len(k_nontriv) + len(j_nontriv), disagreements=disagreements, samples=samples, distribution=dist,
                 note='every case is a boolean computed by vm_compute inside Coq from the model and the serialised implementation output')
 
 
@@ -140,12 +155,16 @@ def search(ctx, deep):
         e = g.filter_expr(d) if ctx.rng.random() < 0.7 else g.value('str', d, True)
         inputs.append((e, dict(g.params), 'random-ext'))
     evals, failures, nontriv, dist = H.search_sqlite(ctx, inputs, rows, deep)
+    jreal = J.RealGraph(J.standard_graph())
+    j_evals, j_fail, j_nontriv, j_dist = J.join_search(ctx, J.gen_queries(ctx, z.get('join_search', 150)), jreal)
+    evals += j_evals; failures += j_fail; nontriv |= j_nontriv; dist['join'] = j_dist
     dist['inputs'] = {'corpus': len([1 for i in inputs if i[2] == 'corpus']), 'total': len(inputs)}
     samples = [{'query': 'select(p for p in P if %s)' % L.src(inputs[len(inputs) // 2][0]), 'params': inputs[len(inputs) // 2][1]}]
     return Search(evaluations=evals, failures=failures, nontrivial=len(nontriv), samples=samples, distribution=dist, exhaustive=False)
 
 
 def replay(ctx, data):
+    if 'join' in data: return J.replay_join(data['join'])
     return H.replay_sqlite(data)
 
 
@@ -157,7 +176,7 @@ LEVEL_TEXT = ('Machine-checked proof (Coq 8.16.1, structural induction on the ex
               '(floor division / modulo / true division of integers, a None value tested for truth below `not`, conditions as comparison operands) that are refuted by '
               'witnesses. The model is compared node for node with the real translator on four providers on every run; the SQLite semantics is validated against the '
               'linked SQLite; an end-to-end differential search on real SQLite also covers LIKE / upper / lower / slices / between.')
-LEVEL_NOTE = ('Partial: joins, relationship paths, subqueries, aggregates, GROUP BY, ordering, dates, Decimal / float, JSON, arrays, hybrid methods, lambdas and generator '
+LEVEL_NOTE = ('Partial: joins over several loop variables, to-many collections, subqueries, aggregates, GROUP BY, ordering, dates, Decimal / float, JSON, arrays, hybrid methods, lambdas and generator '
               'objects (decompiler), entity row decoding are outside the theorem and outside this check. Trusted: Coq kernel + vm_compute; the hand-written translation '
               'model (tied structurally on every run); documentation models of PostgreSQL / MySQL (nothing executes there); the reference reading of None written from '
               'the property statement.')
